@@ -28,6 +28,21 @@ CHECKS = {
         "note": "Trusted: ast, the analyser, asyncio's documented contract (close/abort release the socket; connection_lost follows a closed transport). Not decided: real elapsed time, kernel behaviour, cancellation.",
         "technique": "typestate (acquire/release) over CFG + integer-state CFG execution + value numbering (static)",
     },
+    "C15": {
+        "text": "An abstract interpreter over result kinds (raw kinds taken from the raw client's return annotations) decides for every public wrapper method that nothing returned or yielded contains an x690 value, ObjectIdentifier or VarBind - dictionary keys included; conversions are shown to be element-wise, unfiltered and order preserving; every SNMP value type wraps a builtin.",
+        "note": "Trusted: ast, the analyser, the raw client's return annotations (cross-checked against its code by C01-C04/C16). BulkResult is accepted as documented container. Not decided: equality of values (follows from element-wise pythonize of the same raw result).",
+        "technique": "abstract interpretation over a kind lattice (provenance of result leaves) (static)",
+    },
+    "C16": {
+        "text": "Offset agreement of the two table variants (len(oid) vs len(oid)+1, evaluated symbolically), a symbolic slice algebra showing column = arc[base] and row index = all remaining arcs (complete multi-component index, stored under '0'), get-or-create row accumulation, and complete in-order consumption of the single-root walk.",
+        "note": "Trusted: ast, the analyser. Assumes the walks deliver exactly the subtree (C01/C02). Not decided: equality with an arbitrary agent table as a whole (follows from the decided clauses plus C01/C02).",
+        "technique": "linear normaliser + symbolic slice algebra + syntactic get-or-create idiom check (static)",
+    },
+    "C17": {
+        "text": "Counter32/Counter64 constructors executed over their CFG with a concrete integer at and around every region boundary, mask/threshold constants folded; numeric-kind inference forbids truncating an inexact float in the tick conversion and fixes the scale at 100 in both directions; IPv4 width and byte order; unsigned decode resolved through the MRO.",
+        "note": "Trusted: ast, the analyser, RFC 2578 table. Boundary evaluation is exact for the piecewise mask/compare expressions used (regions are delimited by the folded constants). Not decided: x690's integer codec over full ranges; encode/decode round trip of each value.",
+        "technique": "integer-state CFG execution at region boundaries + numeric-kind inference + constant folding (static)",
+    },
     "C18": {
         "category": "proof",
         "text": "Save/restore pairing (W subset of restored, each from a local saved before the try, finally covers the yield), atomic configure (validation dominates all stores; no call after a store), settings read at send time, and family switch from the new credentials are all decided; exact restoration at any nesting depth follows by induction on depth.",
